@@ -496,7 +496,14 @@ func (Scenario) Run(c choice.Chooser, opt sim.Options) sim.Result {
 		}
 	}
 	clients := 2 + c.Intn("w:clients", 3)
-	next := 1
+	// serial numbers start at 100: consecutive update messages mostly have
+	// the same length, which is what a client that reuses its message buffer
+	// needs in order to hand over the very same bytes region again
+	next := 100
+	reuse := make([]bool, clients)
+	for cl := range reuse {
+		reuse[cl] = c.Intn("w:reuse-buffer", 3) == 2
+	}
 	plans := make([][]op, clients)
 	total := 0
 	for cl := 0; cl < clients; cl++ {
@@ -533,28 +540,46 @@ func (Scenario) Run(c choice.Chooser, opt sim.Options) sim.Result {
 		cl := cl
 		results[cl] = make([]result, len(plans[cl]))
 		s.Go(fmt.Sprintf("client%d", cl), func() {
+			// a client may keep one buffer for all the messages it sends:
+			// once a call has returned, the bytes it was given belong to
+			// the caller again
+			buf := make([]byte, 0, 256)
+			message := func(m []byte) []byte {
+				if !reuse[cl] || len(m) > cap(buf) {
+					return m
+				}
+				buf = append(buf[:0], m...)
+				return buf
+			}
 			for k, o := range plans[cl] {
 				var r result
-				detsched.Yield("client:invoke", int64(k))
+				var msg []byte
 				switch o.Kind {
 				case opUpdate:
-					msg := []byte(strconv.Itoa(o.Value))
+					msg = []byte(strconv.Itoa(o.Value))
 					if g.ParamKind[o.Param] == 1 {
 						msg, _ = json.Marshal(pattern(o.Value))
 					}
 					if g.ParamKind[o.Param] == 2 {
-						msg = fileBytes(o.Value) // a fresh slice: File keeps the message it is given
+						msg = fileBytes(o.Value)
 					}
-					_, err := b.inst.UpdateParameter(b.paramIDs[o.Param], msg)
-					r.Err = err != nil
-					detsched.Yield("client:return", int64(k))
+					msg = message(msg)
 				case opBadUpdate:
-					msg := []byte("{not json")
+					msg = []byte("{not json")
 					if g.ParamKind[o.Param] == 1 {
 						// a valid first element, then garbage: must be
 						// rejected as a whole
 						msg = []byte(fmt.Sprintf(`[{"x":%d,"y":7,"z":7},{"x":`, 7000+k))
 					}
+					msg = message(msg)
+				}
+				detsched.Yield("client:invoke", int64(k))
+				switch o.Kind {
+				case opUpdate:
+					_, err := b.inst.UpdateParameter(b.paramIDs[o.Param], msg)
+					r.Err = err != nil
+					detsched.Yield("client:return", int64(k))
+				case opBadUpdate:
 					_, err := b.inst.UpdateParameter(b.paramIDs[o.Param], msg)
 					r.Err = err != nil
 					detsched.Yield("client:return", int64(k))
@@ -694,6 +719,9 @@ func (Scenario) Run(c choice.Chooser, opt sim.Options) sim.Result {
 		res.Count("fault:client-stalled-inside-evaluation-while-others-arrive", 1)
 	}
 	for cl := range plans {
+		if reuse[cl] {
+			res.Count("fault:client-reuses-its-message-buffer", 1)
+		}
 		for _, o := range plans[cl] {
 			switch {
 			case o.Kind == opBadUpdate:
